@@ -279,6 +279,18 @@ func (c *ruleguardChecker) WalkFile(f *ast.File) {
 	})
 }
 
+// runRuleguardRules runs the engine over f. A pattern the matcher can't
+// handle (a user rule like `$x[$*_]`) makes it panic instead of returning
+// an error; that must not take the whole run down.
+func runRuleguardRules(e *ruleguard.Engine, runCtx *ruleguard.RunContext, f *ast.File) (err error) {
+	defer func() {
+		if r := recover(); r != nil {
+			err = fmt.Errorf("%v", r)
+		}
+	}()
+	return e.Run(runCtx, f)
+}
+
 func runRuleguardEngine(ctx *linter.CheckerContext, f *ast.File, e *ruleguard.Engine, runCtx *ruleguard.RunContext) {
 	type ruleguardReport struct {
 		pos     token.Pos
@@ -305,7 +317,7 @@ func runRuleguardEngine(ctx *linter.CheckerContext, f *ast.File, e *ruleguard.En
 		reports = append(reports, r)
 	}
 
-	if err := e.Run(runCtx, f); err != nil {
+	if err := runRuleguardRules(e, runCtx, f); err != nil {
 		// Normally this should never happen, but since
 		// we don't have a better mechanism to report errors,
 		// emit a warning.
